@@ -260,7 +260,9 @@ class IrcUser(object):
 
     def checkPassword(self, password):
         """Checks the user's password."""
-        if password is None:
+        if not password or not self.password:
+            # No password given, or none set: that is never a match (the
+            # commands use '' for "no password given").
             return False
         if self.hashed:
             (salt, _) = self.password.split('|')
